@@ -5,6 +5,7 @@ import (
 	//"encoding/hex"
 	"io"
 	"log"
+	"net"
 	"net/http"
 	"os"
 	"regexp"
@@ -102,7 +103,12 @@ func (h *HTTP) request(ctx *gin.Context) {
 	if h.Config.BehindRedir {
 		ExternalIP = ctx.Request.Header.Get("X-Forwarded-For")
 	} else {
-		ExternalIP = strings.Split(ctx.Request.RemoteAddr, ":")[0]
+		// RemoteAddr is "host:port", with the host in brackets for IPv6 peers
+		if Host, _, err := net.SplitHostPort(ctx.Request.RemoteAddr); err == nil {
+			ExternalIP = Host
+		} else {
+			ExternalIP = ctx.Request.RemoteAddr
+		}
 	}
 
 	/*
@@ -120,7 +126,7 @@ func (h *HTTP) request(ctx *gin.Context) {
 	valid := true
 	IgnoreHeaders := [2]string{"Connection", "Accept-Encoding"}
 	for _, Header := range h.Config.Headers {
-		NameValue := strings.Split(Header, ": ")
+		NameValue := strings.SplitN(Header, ": ", 2)
 		if len(NameValue) > 1 {
 			ignore := false
 			for _, IgnoreHeader := range IgnoreHeaders {
@@ -177,7 +183,8 @@ func (h *HTTP) request(ctx *gin.Context) {
 	//       on the redirector setup
 
 	for _, Header := range h.Config.Response.Headers {
-		var hdr = strings.Split(Header, ":")
+		// only the first colon separates name and value; the value may contain more
+		var hdr = strings.SplitN(Header, ":", 2)
 		if len(hdr) > 1 {
 			ctx.Header(hdr[0], hdr[1])
 		}
